@@ -151,17 +151,17 @@ func v4ConstructorsInSource() ([]string, error) {
 // ---- argument synthesis -------------------------------------------------------------------
 
 var (
-	tIP         = reflect.TypeOf(net.IP{})
-	tIPMask     = reflect.TypeOf(net.IPMask{})
-	tDuration   = reflect.TypeOf(time.Duration(0))
-	tV4Code     = reflect.TypeOf((*dhcpv4.OptionCode)(nil)).Elem()
-	tV4Decoder  = reflect.TypeOf((*dhcpv4.OptionDecoder)(nil)).Elem()
-	tV4Option   = reflect.TypeOf(dhcpv4.Option{})
-	tLabelsPtr  = reflect.TypeOf((*rfc1035label.Labels)(nil))
-	tLexerPtr   = reflect.TypeOf((*uio.Lexer)(nil))
-	tDUID       = reflect.TypeOf((*dhcpv6.DUID)(nil)).Elem()
-	tIPNetPtr   = reflect.TypeOf((*net.IPNet)(nil))
-	tV6Option   = reflect.TypeOf((*dhcpv6.Option)(nil)).Elem()
+	tIP        = reflect.TypeOf(net.IP{})
+	tIPMask    = reflect.TypeOf(net.IPMask{})
+	tDuration  = reflect.TypeOf(time.Duration(0))
+	tV4Code    = reflect.TypeOf((*dhcpv4.OptionCode)(nil)).Elem()
+	tV4Decoder = reflect.TypeOf((*dhcpv4.OptionDecoder)(nil)).Elem()
+	tV4Option  = reflect.TypeOf(dhcpv4.Option{})
+	tLabelsPtr = reflect.TypeOf((*rfc1035label.Labels)(nil))
+	tLexerPtr  = reflect.TypeOf((*uio.Lexer)(nil))
+	tDUID      = reflect.TypeOf((*dhcpv6.DUID)(nil)).Elem()
+	tIPNetPtr  = reflect.TypeOf((*net.IPNet)(nil))
+	tV6Option  = reflect.TypeOf((*dhcpv6.Option)(nil)).Elem()
 )
 
 // roGenValue builds a value of type t from the generator; ok=false when the
@@ -285,7 +285,11 @@ func roInitKinds() {
 	if roKinds != nil {
 		return
 	}
-	roKinds = []string{"pkt4", "pkt4", "pkt4-loose", "wire4", "wire4", "msg6", "msg6", "msg6-loose", "wire6", "wire6", "duid", "labels", "archs"}
+	// whole packets and messages carry most of the nodes: a third of the roots
+	for i := 0; i < 4; i++ {
+		roKinds = append(roKinds, "pkt4", "pkt4-loose", "wire4", "wire4", "msg6", "msg6-loose", "wire6", "wire6")
+	}
+	roKinds = append(roKinds, "duid", "duid", "labels", "archs")
 	for _, c := range knownCodes6 {
 		roKinds = append(roKinds, fmt.Sprintf("opt6:%d", c))
 	}
@@ -795,7 +799,9 @@ func (rr *roRun) checkRoot(kind string, state uint64) {
 		return
 	}
 	res.Distinct++
-	label := func(m *roMethod) string { return nodes[m.node].path + "." + m.name[strings.LastIndexByte(m.name, '.')+1:] }
+	label := func(m *roMethod) string {
+		return nodes[m.node].path + "." + m.name[strings.LastIndexByte(m.name, '.')+1:]
+	}
 
 	// one checked call; returns false when the root is no longer usable
 	call := func(m *roMethod, seq string) bool {
